@@ -26,6 +26,9 @@ def cases(draw):
     if draw(st.integers(0, 2)) == 0:
         # the source the user wrote: same tokens with generated whitespace / comments (CR, FF, // and /* */ included)
         c["text"] = draw(gen_text.trivia_variant(M.program_tokens(c["prog"])))[0]
+    if draw(st.integers(0, 7)) == 0:
+        # a trailing comment the author never closed: today's lexer accepts it, so generate_code must cope with it as well
+        c["text"] = (c.get("text") or M.render(c["prog"])) + draw(st.sampled_from([" /* TODO", "\n/* open", " /*"]))
     fields = list(c["inputs"][0].keys()) if c["inputs"] else []
     if fields and draw(st.booleans()):
         drop = draw(st.sampled_from(fields))
@@ -52,6 +55,9 @@ def judge(case):
             tags.append("source-with-lone-CR")
     res = sut.compile_text(text)
     if res[0] != "ok":
+        if text.rstrip().endswith(("/* TODO", "/* open", "/*")):
+            # whether an unterminated trailing comment is accepted is not C14's business (documentation silent)
+            return {"viol": [], "nontrivial": False, "tags": tags + ["unterminated-comment-rejected"], "skipped": "unterminated-comment"}
         return {"viol": ["does not compile: %s %s | %s" % (res[1], res[2], text)], "tags": tags}
     ev = res[1]
     seeded = not prog["splitters"]
